@@ -130,7 +130,8 @@ Refine(tm, w, t) ==
     \* the extra octets follow s inside the blob, which leaves the value (r, s) as it was
     [] tm.cls = "shift_to_sig"  -> {[w EXCEPT !.blob = IF Family(t) = "ecdsa" THEN AliasOf(w.blob)
                                                        ELSE [w.blob EXCEPT !.k = "malformed", !.why = "blob_long_by_data"]]}
-    [] tm.cls = "shift_to_data" -> {[w EXCEPT !.blob = Malformed(IF Family(t) = "ecdsa" THEN "inner_truncated" ELSE "blob_short")]}
+    [] tm.cls = "shift_to_data" -> {[w EXCEPT !.blob = IF Family(t) = "ecdsa" THEN Malformed("inner_truncated")
+                                                       ELSE [w.blob EXCEPT !.k = "malformed", !.why = "blob_short_by_data"]]}
     [] tm.cls = "blob_zero_prepended" -> {[w EXCEPT !.blob = [w.blob EXCEPT !.k = "malformed", !.why = "blob_zero_prepended"]]}
     [] tm.cls = "trunc"        -> {[w EXCEPT !.alg = UnknownF]} \cup {[w EXCEPT !.blob = b] : b \in TruncBlobs(t)}
     \* a corrupted length prefix re-frames the fields: anything a cut can do, a longer blob, or (length
@@ -159,7 +160,9 @@ S_UseVerifyingKey(v) == IF v.type = "ed25519" /\ v.prov \in FileProvs /\ "ed_no_
 Normalised(v, w) == /\ "mut_strip_zeros" \in Defects /\ Family(v.type) = "rsa"
                     /\ w.blob.k = "malformed" /\ w.blob.why = "blob_zero_prepended"
 Concatenated(v, w, d) == /\ "mut_concat_verify" \in Defects /\ Family(v.type) = "ed25519"
-                         /\ w.blob.k = "malformed" /\ w.blob.why = "blob_long_by_data" /\ d = "d1_rest"
+                         /\ w.blob.k = "malformed"
+                         /\ \/ (w.blob.why = "blob_long_by_data" /\ d = "d1_rest")
+                            \/ (w.blob.why = "blob_short_by_data" /\ d = "tail_d1")
 S_DecodeBlob(v, w, d) ==
   IF w.blob.k # "malformed" \/ Normalised(v, w) \/ Concatenated(v, w, d) THEN "go"
   ELSE IF Family(v.type) = "ed25519" /\ "ed_sig_length" \in Defects THEN "ValueError"
